@@ -86,6 +86,12 @@ Proof. intros Hx Hy E. rewrite <- (of_be32_be32 x Hx), <- (of_be32_be32 y Hy), E
 Lemma lenN_length (p : bytes) : N.to_nat (lenN p) = length p.
 Proof. unfold lenN. apply Nat2N.id. Qed.
 
+Lemma shorter_spec bs n : shorter bs n = Nat.ltb (length bs) n.
+Proof.
+  revert bs. induction n as [|n IH]; intros [|b bs]; cbn [shorter length]; auto.
+  rewrite IH. reflexivity.
+Qed.
+
 (** ** the three reads of Decode *)
 Lemma rd_ok k n bs d r :
   rd k n bs = (d, r, ROk) ->
@@ -105,7 +111,7 @@ Proof.
       * rewrite (firstn_all2 l) by lia. rewrite (skipn_all2 l) by lia. split.
         { rewrite app_length, repeat_length. lia. }
         exists (S n - length l). rewrite app_nil_r. split; auto.
-  - destruct n as [|n]; [discriminate|].
+  - destruct n as [|n]; [discriminate|]. rewrite shorter_spec.
     destruct (Nat.ltb (length bs) (S n)) eqn:L; [discriminate|].
     apply Nat.ltb_ge in L. intro E. assert (Ed : d = firstn (S n) bs) by congruence.
     assert (Er : r = skipn (S n) bs) by congruence. clear E. subst d r. split; [apply firstn_length_le; exact L|].
@@ -122,7 +128,7 @@ Proof.
     rewrite firstn_length_app, skipn_length_app. unfold pad_to. rewrite Nat.sub_diag. cbn [repeat]. rewrite app_nil_r. reflexivity.
   - assert (L : Nat.ltb (length (q ++ r)) (length q) = false).
     { apply Nat.ltb_ge. rewrite app_length. lia. }
-    rewrite Lq in *. cbv beta iota. rewrite L. rewrite <- Lq.
+    rewrite Lq in *. cbv beta iota. rewrite shorter_spec, L. rewrite <- Lq.
     rewrite firstn_length_app, skipn_length_app. reflexivity.
 Qed.
 
@@ -135,7 +141,7 @@ Proof.
   - destruct n; [intro E; assert (r = bs) by congruence; subst; lia|].
     destruct bs as [|x bs']; [intro E; assert (r = []) by congruence; subst; cbn; lia|].
     remember (x :: bs') as l. intro E. assert (r = skipn (S n) l) by congruence. subst r. rewrite skipn_length. lia.
-  - destruct n; [intro E; assert (r = bs) by congruence; subst; lia|].
+  - destruct n; [intro E; assert (r = bs) by congruence; subst; lia|]. rewrite shorter_spec.
     destruct (Nat.ltb (length bs) (S n)); intro E.
     + assert (r = []) by congruence. subst. cbn. lia.
     + assert (r = skipn (S n) bs) by congruence. subst r. rewrite skipn_length. lia.
@@ -146,7 +152,7 @@ Proof.
   destruct k; cbn [rd].
   - destruct bs as [|x bs']; [discriminate|].
     remember (x :: bs') as l. intro E. assert (r = skipn (S n) l) by congruence. subst r. rewrite skipn_length. subst l. cbn. lia.
-  - destruct (Nat.ltb (length bs) (S n)) eqn:L; [discriminate|]. apply Nat.ltb_ge in L. intro E.
+  - rewrite shorter_spec. destruct (Nat.ltb (length bs) (S n)) eqn:L; [discriminate|]. apply Nat.ltb_ge in L. intro E.
     assert (r = skipn (S n) bs) by congruence. subst r. rewrite skipn_length. lia.
 Qed.
 
@@ -294,7 +300,7 @@ Section Decode.
       destruct (crc d =? of_be32 b1)%N; cbn [fst]; try lia. destruct (deser d); cbn [fst]; lia.
     - exfalso. destruct k; cbn [rd] in E1.
       + destruct bs; discriminate.
-      + destruct (Nat.ltb (length bs) 4); discriminate.
+      + destruct (shorter bs 4); discriminate.
   Qed.
 
 End Decode.
